@@ -176,7 +176,7 @@ Definition json_path_sql (path : list string) : expr :=
              Fn "JSONExtractString" [Id "string"; jp];
              Fn "JSONExtractRaw" [Id "string"; jp]]).
 Definition sql_json_parser (labels : list string) (paths : list (list string)) : expr :=
-  Sep "" [Raw "mapFromArrays(["; Sep "," (map StrV labels); Raw "], ["; Sep "," (map json_path_sql paths); Raw "])"].
+  Sep "" [Raw "mapFilter((k,v) -> v != '', mapFromArrays(["; Sep "," (map StrV labels); Raw "], ["; Sep "," (map json_path_sql paths); Raw "]))"].
 Fixpoint all_paths (ps : list parser_param) : option (list (list string)) :=
   match ps with
   | [] => Some []
